@@ -104,7 +104,6 @@ func (x *Exec) havocCall(st *State, hint string, args []*Val, res *types.Tuple) 
 	}
 	if refs {
 		x.havocAll(st, "opaque call "+hint)
-		x.bumpAllocBase(st)
 	}
 	return x.freshResult(st, hint, res)
 }
@@ -296,8 +295,10 @@ func (x *Exec) applyContract(st *State, fr *Frame, c *Contract, sig *types.Signa
 			x.applyHavoc(st, m)
 		}
 	}
-	modifiesSomething := len(c.of("modifies", -1)) > 0
-	if modifiesSomething || c.has("allocates") {
+	// Objects a callee allocates look to the caller like references below the current
+	// allocation frontier (sound: they may alias anything old, never a later allocation of ours).
+	// Only contracts that talk about fresh() results need a new frontier.
+	if c.has("allocates") {
 		x.bumpAllocBase(st)
 	}
 	res := x.freshResult(st, sanitize(cname), sig.Results())
@@ -333,7 +334,9 @@ func (x *Exec) applyHavoc(st *State, m modTarget) {
 	srt := m.sort
 	arr := x.heapGet(st, m.key, srt)
 	if m.lo == nil {
-		f := x.freshConst(st, "hv", srt)
+		// value stored per object: a scalar leaf, a whole backing array, or a whole map column
+		_, vs := arrSorts(heapSort(m.key, srt))
+		f := x.freshConst(st, "hv", vs)
 		st.heap[m.key] = Store(arr, m.base, f)
 		return
 	}
